@@ -46,7 +46,7 @@ def record(seed, n_traces, n_ev, kinds):
     for ti in range(n_traces):
         kind = kinds[ti % len(kinds)]
         keys = []
-        while len(keys) < rnd.randint(4, 7):
+        while len(keys) < rnd.randint(5, 9):
             k = rand_key(rnd)
             if k not in keys:
                 keys.append(k)
@@ -71,7 +71,7 @@ def record(seed, n_traces, n_ev, kinds):
                 tr["qmax"] = rnd.randint(1, 3)
                 obj = P.RotatingBloomFilter(est_elements=est, false_positive_rate=fpr, max_queue_size=tr["qmax"])
         elif kind == "cms":
-            w, d = rnd.choice([(2, 2), (3, 2), (5, 3), (4, 4), (7, 1), (2, 5)])
+            w, d = rnd.choice([(2, 2), (3, 2), (5, 3), (4, 4), (7, 1), (2, 5), (16, 5), (9, 3)])
             mode = rnd.choice(["min", "mean", "mean-min"])
             cls = {"min": P.CountMinSketch, "mean": P.CountMeanSketch, "mean-min": P.CountMeanMinSketch}[mode]
             obj = cls(width=w, depth=d)
@@ -86,7 +86,7 @@ def record(seed, n_traces, n_ev, kinds):
             tr.update(cap=cap, bs=bs, ms=5, fb=8 * fs)
         outstanding = {i: 0 for i in range(len(keys))}
         for _ in range(n_ev):
-            i = rnd.randrange(len(keys))
+            i = rnd.randrange(max(1, len(keys) - 3))  # the last three keys are probe-only: never added
             key = real_keys[i]
             ev = {"op": "add", "k": i + 1, "a": 1}
             try:
@@ -203,5 +203,5 @@ def run(focus, tier, seed):
         "re-read by the TLA+ reference reader; non-trivial = distinct exported state whose bit array is not a whole number of bytes or that is not a plain Bloom filter"
     )
     total.assumptions.append("geometry of Bloom-type structures from a 50-digit evaluation of the documented formula; cuckoo histories with evictions are excluded (the reference writer is deterministic)")
-    total.assumptions.append("mean-min reader compared only where no intermediate value is negative (floor vs C truncation)")
+    total.assumptions.append("the reference reader divides with floor semantics (the documented Python behaviour), also on negative intermediates of mean / mean-min")
     return total
